@@ -318,7 +318,7 @@ def _run_aio(frontend, framing_cls, ctx, script, flags):
 # ------------------------------------------------------------------ Twisted protocols
 def _run_tw_tcp(framing_cls, ctx, script, flags):
     import pymodbus.server.asynchronous as st
-    from twisted.test.proto_helpers import StringTransport
+    from twisted.internet.testing import StringTransport
     res = Result()
     kw = {'ignore_missing_slaves': flags.get('ignore_missing_slaves', False)}
     factory = st.ModbusServerFactory(ctx, framing_cls, **kw)
